@@ -204,6 +204,12 @@ def check(run):
         one_case(run, sp_, pts, q, kinds, T)
         run.count(lab)
     many_charges_case(run)
+    # sets of charges of both signs whose sum vanishes, exactly or to rounding (an embedding cloud, a dipole)
+    for qs in ([0.1, 0.2, -0.3], [1.0, 1.0, -2.0], [1.0, -1.0], [2.5, -1.25, -1.25, 0.0]):
+        sp_ = random_basis(rng, 2, 2, lmax=2, exp_hi=10.0)
+        pts_, _q, kinds_ = place_charges(rng, sp_, len(qs))
+        one_case(run, sp_, pts_, np.array(qs), ("neutral",) * len(qs))
+        run.count("charges that sum to zero")
     # one nucleus with a basis of one function / a single-row transformation: the nuclear-attraction matrix is still a matrix
     from gbasis.integrals.nuclear_electron_attraction import nuclear_electron_attraction_integral
     from gbasis.integrals.point_charge import point_charge_integral
